@@ -81,6 +81,7 @@ type Proxy struct {
 	allocBase    uint64
 	allocWatch   int
 	probe        []*peers.ReqRec
+	probeRound   int
 	probeCl      *peers.XClient
 	hostAddrs    []string
 	lisAddr      string
@@ -408,6 +409,7 @@ func (w *Proxy) replyBuilder(u *peers.XUpstream, r *peers.ReqRec, up *peers.UpRe
 		body[len(r.Token)+i] = byte(i*7 + len(r.Frame))
 	}
 	f.Body = body
+	f.Fixed = fixedFields(u.Codec.Name(), sim.Mix(w.S.Ch.Seed^0x66697865645f72, uint64(r.Idx*8+up.Att)))
 	return f
 }
 
@@ -698,12 +700,54 @@ func (w *Proxy) final() {
 	w.checkC09Idle()
 	w.checkC10Idle()
 	if k := w.probeSize(); k > 0 {
-		w.startProbe(k)
-		w.S.After(3*time.Second, "probe-check", func() { w.checkProbe(k); w.finish() })
+		w.startProbe(k, 5*time.Millisecond)
+		w.S.After(3*time.Second, "probe-check", func() {
+			w.checkProbe(k)
+			if len(w.S.Violations) > 0 {
+				w.finish()
+				return
+			}
+			// ... and the limit trips at its threshold: one request more than max_requests, all in flight at once.
+			// (max_connections is compared per host pool by the HTTP/1 and ping-pong pools, its cluster-wide
+			// meaning is not settled by the statement: only the requests limit is probed, and only when no
+			// connection limit is tighter.)
+			if w.P.MaxReqs == 0 || k != w.P.MaxReqs || (w.P.MaxConns > 0 && w.P.MaxConns <= w.P.MaxReqs) {
+				w.finish()
+				return
+			}
+			for _, r := range w.probe {
+				// (a probe request of the first round that is still unanswered — its upstream connection was
+				// left mid-frame by a scripted fault — still counts against the limit)
+				if len(r.Replies) != 1 || r.Replies[0].Tok != r.Token {
+					w.finish()
+					return
+				}
+			}
+			w.startProbe(k+1, tripHold)
+			w.S.After(5*time.Second, "trip-check", func() { w.checkTrip(k); w.finish() })
+		})
 		return
 	}
 	w.finish()
 }
+
+// fixedFields: values for the free fixed fields of a bolt / boltv2 frame ("every value of every fixed
+// field"), a function of (seed, index) and not a choice: version(s) and codec; the boltv2 switch byte
+// stays 0 (1 announces a CRC trailer, which MOSN does not support).
+func fixedFields(proto string, h uint64) []byte {
+	vals := []byte{1, 1, 2, 3, 0x7f, 0xff, 0, 11}
+	pick := func(i uint) byte { return vals[(h>>(8*i))%uint64(len(vals))] }
+	switch proto {
+	case "bolt":
+		return []byte{pick(0), pick(1)}
+	case "boltv2":
+		return []byte{pick(0), pick(1), pick(2), 0}
+	}
+	return nil
+}
+
+// tripHold: how long the upstreams hold each request of the threshold probe
+const tripHold = 300 * time.Millisecond
 
 func (w *Proxy) probeSize() int {
 	p := w.P
@@ -725,13 +769,14 @@ func (w *Proxy) probeSize() int {
 	return k
 }
 
-func (w *Proxy) startProbe(k int) {
+func (w *Proxy) startProbe(k int, upDelay time.Duration) {
 	s := w.S
-	s.Logf("capacity probe: %d concurrent requests", k)
+	s.Logf("capacity probe: %d concurrent requests (upstream answers after %v)", k, upDelay)
 	w.probe = nil
+	w.probeRound++
 	for i := 0; i < k; i++ {
-		tok := fmt.Sprintf("%016x", sim.Mix(s.Ch.Seed^0x70726f6265, uint64(i)))
-		r := &peers.ReqRec{ID: uint64(9000 + i), Token: tok, Extra: map[string]string{"probe": "1"}, Script: []peers.Action{{Kind: "reply", Delay: 5 * time.Millisecond}}}
+		tok := fmt.Sprintf("%016x", sim.Mix(s.Ch.Seed^0x70726f6265, uint64(i+1000*w.probeRound)))
+		r := &peers.ReqRec{ID: uint64(9000 + 100*w.probeRound + i), Token: tok, Extra: map[string]string{"probe": "1"}, Script: []peers.Action{{Kind: "reply", Delay: upDelay}}}
 		r.Proto = w.P.Proto
 		if w.P.Proto == "http1" {
 			m := &peers.H1Msg{IsReq: true, Method: "POST", Target: "/probe", Body: []byte(tok),
@@ -739,7 +784,7 @@ func (w *Proxy) startProbe(k int) {
 			r.Method, r.Target, r.HReq = m.Method, m.Target, m
 			r.Frame = peers.BuildH1(m)
 			w.H.Add(r)
-			cl := peers.NewH1Client(s, w.H, fmt.Sprintf("probe%d", i))
+			cl := peers.NewH1Client(s, w.H, fmt.Sprintf("probe%d-%d", w.probeRound, i))
 			cl.Connect = func() *sim.Conn { return w.N.Connect(w.lisAddr, cl.Name, cl) }
 			w.h1clients = append(w.h1clients, cl)
 			cl.Enqueue(r)
@@ -783,8 +828,54 @@ func (w *Proxy) checkProbe(k int) {
 	w.Stats["capacity_probes"]++
 }
 
+// checkTrip: k+1 requests were in flight at once against a limit of k: exactly one of them is refused
+// with the overflow status, the others are served (C10: "the configured limits trip at their thresholds").
+func (w *Proxy) checkTrip(k int) {
+	overflow, served := 0, 0
+	for _, r := range w.probe {
+		if len(r.Replies) == 0 {
+			continue
+		}
+		st := r.Replies[0].Status
+		if w.P.Proto == "http1" && st == 503 || w.P.Proto != "http1" && r.Replies[0].Tok == "" && st == 4 {
+			overflow++
+		} else if r.Replies[0].Tok == r.Token {
+			served++
+		}
+	}
+	w.Stats["threshold_probes"]++
+	if overflow+served != k+1 {
+		return // something else happened to a probe request (the other oracles speak)
+	}
+	if overflow == 0 {
+		// none refused: a violation only if the upstreams really held all k+1 at the same instant (the
+		// scheduler may have kept one of them parked inside MOSN until another had finished)
+		var lo, hi time.Duration
+		for i, r := range w.probe {
+			if len(r.Upstream) != 1 {
+				return
+			}
+			at := r.Upstream[0].At
+			if i == 0 || at < lo {
+				lo = at
+			}
+			if i == 0 || at > hi {
+				hi = at
+			}
+		}
+		if hi >= lo+tripHold {
+			w.Stats["threshold_probes_not_concurrent"]++
+			return
+		}
+	}
+	if overflow != 1 {
+		w.S.Violate("C10", "limit_does_not_trip_at_threshold", "%d requests in flight at once against max_requests=%d max_connections=%d (%s pool): %d were refused with the overflow status, %d served; exactly one must be refused", k+1, w.P.MaxReqs, w.P.MaxConns, w.P.Proto, overflow, served)
+	}
+}
+
 func (w *Proxy) finish() {
 	w.finished = true
+	CheckRecoveredPanics(w.S, w.Stats)
 	for k, v := range w.S.RaceFeatures() {
 		w.S.Faults[k] += v
 	}
@@ -935,6 +1026,7 @@ func (w *Proxy) setupXClient(ci int, proto string, reqIdxP *int) {
 					r.Extra["hdr_block"] = fmt.Sprint(target)
 				}
 			}
+			f.Fixed = fixedFields(proto, sim.Mix(ch.Seed^0x6669786564, uint64(reqIdx)))
 			r.Frame = codec.Build(f)
 			if r.Extra == nil {
 				r.Extra = map[string]string{}
@@ -1167,7 +1259,9 @@ func (w *Proxy) setupGarbage() {
 		var valid []byte
 		tok := fmt.Sprintf("%016x", sim.Mix(ch.Seed^0x6a756e6b, uint64(gi)))
 		if proto == "http1" {
-			m := &peers.H1Msg{IsReq: true, Method: "POST", Target: "/g", Body: []byte("garbage-body-" + tok),
+			// (the token sits in the target, in a header and in the body: whatever a corruption cuts off or
+			// breaks, a request MOSN still forwards can be attributed to this client)
+			m := &peers.H1Msg{IsReq: true, Method: "POST", Target: "/g-" + tok, Body: []byte("garbage-body-" + tok),
 				Headers: []peers.KV{{K: "Host", V: "svc.test"}, {K: "X-Tok", V: tok}, {K: "service", V: "svc0"}}}
 			valid = peers.BuildH1(m)
 			switch ch.Pick("work", "h1garbage", 6) {
@@ -1188,7 +1282,7 @@ func (w *Proxy) setupGarbage() {
 		} else if proto == "http2" {
 			e := peers.NewH2End(s, w.H, g.Name, false, peers.H2Opts{InitWin: 65535, MaxFrame: 16384, TableSize: 4096, Chunk: []int{0}, Grant: []uint32{1}, GrantGap: []time.Duration{0}})
 			e.Start(nil)
-			m := &peers.H1Msg{IsReq: true, Method: "POST", Target: "/g", Body: []byte("garbage-body-" + tok),
+			m := &peers.H1Msg{IsReq: true, Method: "POST", Target: "/g-" + tok, Body: []byte("garbage-body-" + tok),
 				Headers: []peers.KV{{K: "x-tok", V: tok}, {K: "service", V: "svc0"}}}
 			e.SendMessage(e.PrepareStream(), peers.FieldsOf(m, "svc.test"), m.Body)
 			valid = e.Unflushed()
@@ -1208,16 +1302,46 @@ func (w *Proxy) setupGarbage() {
 		w.garbage = append(w.garbage, g)
 		w.garbageTok[tok] = true
 		at := time.Duration(ch.Pick("work", "gat", 300)) * time.Millisecond
+		if at+time.Millisecond > w.lastSend {
+			w.lastSend = at + time.Millisecond // the run is not over before every malformed-input client has started (and can be told to hang up)
+		}
 		s.At(at, "garbage:"+g.Name, func() {
 			s.Fault("garbage_client")
 			var ms runtime.MemStats
 			runtime.ReadMemStats(&ms)
 			if proto != "http1" { // MOSN's own decoders only (HTTP/1 parsing is fasthttp's)
-				w.allocBase, w.allocWatch = ms.TotalAlloc, 60
+				// (the measure is the process-wide allocation counter: ordinary traffic with large messages in
+				// small segments legitimately allocates tens of MiB while a frame accumulates, so the watch is
+				// armed only when every ordinary message of the run is small)
+				if w.maxPlannedMessage() <= 8<<10 {
+					w.allocBase, w.allocWatch = ms.TotalAlloc, 60
+					w.Stats["alloc_watch_armed"]++
+				} else {
+					w.Stats["alloc_watch_skipped_large_traffic"]++
+				}
 			}
 			g.Start(func(pe sim.Peer) *sim.Conn { return w.N.Connect(w.lisAddr, g.Name, pe) })
 		})
 	}
+}
+
+// maxPlannedMessage: the size of the largest ordinary request or scripted response of the run.
+func (w *Proxy) maxPlannedMessage() int {
+	m := 0
+	for _, r := range w.H.Reqs {
+		if len(r.Frame) > m {
+			m = len(r.Frame)
+		}
+		if r.HReq != nil && len(r.HReq.Body) > m {
+			m = len(r.HReq.Body)
+		}
+		n := 0
+		fmt.Sscan(r.Extra["resp_len"], &n)
+		if n > m {
+			m = n
+		}
+	}
+	return m
 }
 
 // drawVerdicts draws the per-filter verdicts of request r (C14) and returns the
